@@ -3,6 +3,7 @@
 package core
 
 import (
+	_ "embed"
 	"encoding/json"
 	"fmt"
 	"go/token"
@@ -19,7 +20,44 @@ import (
 	"golang.org/x/tools/go/packages"
 	"golang.org/x/tools/go/ssa"
 	"golang.org/x/tools/go/ssa/ssautil"
+
+	"zenocheck/canon"
 )
+
+// baselineFuncs is the inventory of functions declared on the tree the rules were written against
+// (one line per function: key<TAB>signature). Functions that are not in it are "new helpers": package canon
+// inlines them back into their callers before the analysis (regenerate with `zenocheck -write-inventory`).
+//
+//go:embed baseline_funcs.txt
+var baselineFuncs string
+
+func baseline() map[string]string {
+	out := map[string]string{}
+	for _, l := range strings.Split(baselineFuncs, "\n") {
+		if i := strings.Index(l, "\t"); i > 0 {
+			out[l[:i]] = l[i+1:]
+		}
+	}
+	return out
+}
+
+// WriteInventory regenerates the baseline inventory from the given tree.
+func WriteInventory(repo, file string) error {
+	inv, err := canon.Inventory(repo, nil)
+	if err != nil {
+		return err
+	}
+	var keys []string
+	for k := range inv {
+		keys = append(keys, k)
+	}
+	sort.Strings(keys)
+	var b strings.Builder
+	for _, k := range keys {
+		b.WriteString(k + "\t" + inv[k] + "\n")
+	}
+	return os.WriteFile(file, []byte(b.String()), 0o644)
+}
 
 // ModPath is the module the rules are written for.
 const ModPath = "github.com/internetarchive/Zeno"
@@ -39,6 +77,8 @@ type Program struct {
 	cgKind string
 
 	LoadStats LoadStats
+	Canon     canon.Report
+	aliases   map[string]string // baseline "relpkg.Name" -> current "relpkg.Name" (renamed functions)
 }
 
 type LoadStats struct {
@@ -57,6 +97,25 @@ type Overlay map[string][]byte
 func Load(repo string, tier string, overlay Overlay) (*Program, error) {
 	env := append(os.Environ(),
 		"GOFLAGS=-mod=mod", "GOPROXY=off", "GOSUMDB=off", "GOTOOLCHAIN=local", "GOWORK=off")
+	// canonicalise: inline helpers that the reference tree did not have (no-op on the reference tree itself)
+	var canonRep canon.Report
+	if os.Getenv("ZENOCHECK_NO_CANON") == "" {
+		ov, rep := canon.Run(repo, env, overlay, baseline())
+		canonRep = rep
+		if os.Getenv("ZENOCHECK_CANON_DEBUG") != "" {
+			b, _ := json.MarshalIndent(rep, "", " ")
+			fmt.Fprintf(os.Stderr, "canon: %s\n", b)
+			if dir := os.Getenv("ZENOCHECK_CANON_DUMP"); dir != "" {
+				for name, content := range ov {
+					os.MkdirAll(dir, 0o755)
+					os.WriteFile(filepath.Join(dir, strings.ReplaceAll(strings.TrimPrefix(name, repo+"/"), "/", "__")), content, 0o644)
+				}
+			}
+		}
+		if len(ov) > 0 {
+			overlay = Overlay(ov)
+		}
+	}
 	cfg := &packages.Config{
 		Mode:    packages.LoadAllSyntax,
 		Dir:     repo,
@@ -71,7 +130,11 @@ func Load(repo string, tier string, overlay Overlay) (*Program, error) {
 	if len(pkgs) == 0 {
 		return nil, fmt.Errorf("no packages loaded from %s", repo)
 	}
-	p := &Program{Repo: repo, Tier: tier, AllPkgs: map[string]*packages.Package{}}
+	p := &Program{Repo: repo, Tier: tier, AllPkgs: map[string]*packages.Package{}, Canon: canonRep, aliases: map[string]string{}}
+	for from, to := range canonRep.Aliases {
+		p.aliases[keyToName(from, true)] = keyToName(to, true)
+		p.aliases[keyToName(from, false)] = keyToName(to, false)
+	}
 	var errs []string
 	packages.Visit(pkgs, nil, func(pk *packages.Package) {
 		p.AllPkgs[pk.PkgPath] = pk
@@ -271,6 +334,9 @@ func (p *Program) InstrPos(in ssa.Instruction) string {
 // ("internal/pkg/reactor", "(*reactor).run").
 func (p *Program) Func(relpkg, name string) *ssa.Function {
 	want := relpkg + "." + name
+	if to, ok := p.aliases[want]; ok {
+		want = to
+	}
 	for _, fn := range p.ModFuncs {
 		if FuncName(fn) == want {
 			return fn
@@ -318,4 +384,21 @@ func mustJSON(v any) []byte {
 		panic(err)
 	}
 	return b
+}
+
+// keyToName turns an inventory key "dir|Recv|Name" into the FuncName form "dir.(*Recv).Name" / "dir.Name".
+// Pointer and value receivers are not distinguished in the key: both spellings are tried by the caller through
+// aliasVariants.
+func keyToName(k string, ptr bool) string {
+	parts := strings.SplitN(k, "|", 3)
+	if len(parts) != 3 {
+		return k
+	}
+	if parts[1] == "" {
+		return parts[0] + "." + parts[2]
+	}
+	if ptr {
+		return parts[0] + ".(*" + parts[1] + ")." + parts[2]
+	}
+	return parts[0] + ".(" + parts[1] + ")." + parts[2]
 }
